@@ -365,6 +365,8 @@ def _trace_check(ctx, base):
         r["hostile"] = s
         hostile.append(r)
     # every reserved name that exists in the store, through every channel that can name an item
+    # (sent first, while the baseline store is still intact)
+    random_hostile, hostile = hostile, []
     k = 0
     for rn in ("/user/cal/e1.ics~", "/user/cal/.secret.ics", "/user/cal/.Radicale.props", "/user/.hiddencol/s.ics", "/user/.hiddencol/",
                "/user/cal/.Radicale.cache/item/e1.ics"):
@@ -380,6 +382,7 @@ def _trace_check(ctx, base):
         hostile.append(dict(method="MOVE", path="/user/cal/mvr%d.ics" % k, login="user:", mark="hr%d-dest" % k, channel="dest", hostile=rn,
                             headers={"HTTP_DESTINATION": "http://127.0.0.1" + rn, "HTTP_HOST": "127.0.0.1", "HTTP_OVERWRITE": "T"}))
         k += 1
+    hostile += random_hostile
     reqs += hostile
     spec = os.path.join(base, "spec.json")
     outp = os.path.join(base, "out.json")
